@@ -97,7 +97,16 @@ def worker(job):
                         break
                     cause = (progs.where_cause(prog, j, vals, evals) if prog["steps"][j]["op"] == "where"
                              else progs.step_cause(prog, j, S))
-                    rec["fail"].append({**case, "kind": progs.diff_kind(got, ev), "step": j,
+                    # the exported model, or onnxruntime's graph optimiser?  (same model, optimisations disabled)
+                    suffix = ""
+                    try:
+                        sess0 = impl.session(model, optimise=False)
+                        raw0 = dict(zip([o.name for o in sess0.get_outputs()], sess0.run(None, feeds)))
+                        if all(progs.same_value(impl.collect(raw0, f"o{q}", res[q]), e2) for q, e2 in enumerate(evals)):
+                            suffix = "-only-with-onnxruntime-graph-optimizations"
+                    except Exception:
+                        pass
+                    rec["fail"].append({**case, "kind": progs.diff_kind(got, ev) + suffix, "step": j,
                                         "op": prog["steps"][j]["op"], "cause": cause,
                                         "eager": str(impl.canon(ev))[:300], "model": str(impl.canon(got))[:300]})
                     break
